@@ -55,9 +55,22 @@ def descend(plan, si, li, at_bottom):
     if si == len(plan):
         return at_bottom()
     seg = plan[si]
+    if li == 0 and seg and seg[0] == "@dead":
+        li = 1          # marker only: this segment was spawned underneath a parent greenlet that has since died
     if li == len(seg):
         if si + 1 == len(plan):
             return at_bottom()
+        if plan[si + 1] and plan[si + 1][0] == "@dead":
+            # g1 creates g2 (so g2.parent is g1) and finishes; we then resume g2: its parent chain is
+            # g2 -> g1 (dead, no frames) -> this greenlet
+            holder = {}
+
+            def g1_body():
+                holder["g2"] = greenlet.greenlet(descend)
+            g1 = greenlet.greenlet(g1_body)
+            g1.switch()
+            holder["g2"].switch(plan, si + 1, 0, at_bottom)
+            return
         gl = greenlet.greenlet(descend)
         gl.switch(plan, si + 1, 0, at_bottom)
         return
